@@ -73,6 +73,9 @@ type scriptSub struct {
 	mu    sync.Mutex
 	nexts int           // number of times Next() was entered
 	poke  chan struct{} // poked whenever nexts changes
+	// late, if set, is handed to the handler parked in Next() when the watcher
+	// closes the subscription, before Next() starts to return nil
+	late channel.AdjudicatorEvent
 }
 
 // Next parks until the harness injects an event or the subscription is closed.
@@ -95,7 +98,18 @@ func (s *scriptSub) Next() channel.AdjudicatorEvent {
 func (s *scriptSub) Err() error { return nil }
 
 func (s *scriptSub) Close() error {
-	s.once.Do(func() { close(s.closed) })
+	s.once.Do(func() {
+		s.mu.Lock()
+		late := s.late
+		s.mu.Unlock()
+		if late != nil {
+			select {
+			case s.events <- late:
+			case <-time.After(200 * time.Millisecond):
+			}
+		}
+		close(s.closed)
+	})
 	return nil
 }
 
